@@ -44,200 +44,251 @@ def write_nodes(ctx, func, eff):
     return out
 
 
+COPY = ("shutil.copy2", "shutil.copy", "shutil.copyfile")
+IMPORTERS = ("create._GFFDBCreator", "create._GTFDBCreator")
+
+
+def _is_copy(e):
+    return e[0] == "call-opaque" and getattr(e[1], "name", None) in COPY
+
+
+def _is_write(e):
+    """Events after which the database may have changed."""
+    from ..absint import Opaque
+    if e[0] == "execute":
+        return True
+    if e[0] == "construct" and e[1] in IMPORTERS:
+        return True   # the importer connects to (and under `force` removes) the database file
+    if e[0] == "call-opaque" and isinstance(e[1], Opaque) and isinstance(e[2], str):
+        if e[2] in ("commit", "executescript") or e[1].name in ("_GFFDBCreator", "_GTFDBCreator"):
+            return True
+    return False
+
+
+def _traces(ctx, func, args, self_obj, summaries=None):
+    from ..absint import Interp, Unsupported
+    it = Interp(ctx)
+    for k, v in (summaries or {}).items():
+        it.summaries[k] = v
+    try:
+        return it.run(func, args, self_obj=self_obj)
+    except Unsupported as e:
+        ctx.require(False, "%s outside the analysable subset: %s" % (func.qual, e))
+
+
+def _self(dbfn, **attrs):
+    from ..absint import Opaque
+    so = Opaque("self", "obj")
+    so.attrs["dbfn"] = dbfn
+    so.attrs.update(attrs)
+    return so
+
+
 def r1(ctx, eff):
-    for qual in ("interface.FeatureDB.update", "interface.FeatureDB.delete"):
-        f = require_func(ctx, qual)
-        cfg = cfg_of(f)
-        COPY = ("shutil.copy2", "shutil.copy", "shutil.copyfile")
-        copies = [(c, f) for c in calls_in(f.node) if ctx.proj.resolve_call(c, f)[1] in COPY]
-        via = None
-        if not copies:
-            # the backup may live in a helper method: a call whose callee takes the copy
-            for c in calls_in(f.node):
-                for g_ in ctx.proj.resolve_call(c, f)[0]:
-                    inner = [x for x in calls_in(g_.node) if ctx.proj.resolve_call(x, g_)[1] in COPY]
-                    if inner and g_.cls is f.cls:
-                        copies = [(x, g_) for x in inner]
-                        via = c
-        ctx.ob("R1", len(copies) == 1, "%s takes one backup copy" % f.name, func=f, sig="%s: %d backup copies" % (f.name, len(copies)))
-        if len(copies) != 1:
-            continue
-        cp, owner = copies[0]
-        ok = len(cp.args) == 2 and norm(cp.args[0]) == "self.dbfn" and norm(cp.args[1]) == "self.dbfn + '.bak'"
-        ctx.ob("R1", ok, "the backup copies the database file to <dbfn>.bak", node=cp, func=owner, sig="%s backup %s" % (f.name, norm(cp)))
-        g = sorted(("" if pol else "not ") + norm(t) for t, pol in guards_of(cp, owner.node))
-        if via is not None:
-            # guards inside the helper are over its parameters: map them back through the call
-            pmap = dict(zip([p for p in owner.params if p != "self"], [norm(a) for a in via.args]))
-            pmap.update({k.arg: norm(k.value) for k in via.keywords if k.arg})
-            g = sorted(pmap.get(x, x) if not x.startswith("not ") else "not " + pmap.get(x[4:], x[4:]) for x in g)
-            g += sorted(("" if pol else "not ") + norm(t) for t, pol in guards_of(via, f.node))
-        ok = g == sorted(["make_backup", "isinstance(self.dbfn, str)"])
-        ctx.ob("R1", ok, "the backup depends on make_backup and on the database being a file, on nothing else", node=cp, func=owner,
-               sig="%s backup guards %s" % (f.name, g))
-        # outermost If that guards the copy (or the helper call) must dominate every write
-        site = via if via is not None else cp
-        outer = None
-        for p in parents(site):
-            if p is f.node:
-                break
-            if isinstance(p, ast.If):
-                outer = p
-        anchor = cfg.node_for(outer if outer is not None else site)
-        ws = write_nodes(ctx, f, eff)
-        ctx.floor("R1", len(ws), 2, "writing statements in %s" % f.name)
-        for c, why in ws:
-            n = cfg.node_for(c)
-            ok = cfg.dominates(anchor.id, n.id) and n.id != anchor.id and n.id not in _before(cfg, anchor.id)
-            ctx.ob("R1", ok, "the backup is taken before `%s` can write (%s)" % (norm(c)[:50], why), node=c, func=f,
-                   sig="%s: backup precedes %s" % (f.name, _callee(c)) if ok else "%s: %s is reachable without/before the backup" % (f.name, _callee(c)))
-
-
-def _callee(c):
-    return norm(c.func)
-
-
-def _before(cfg, nid):
-    """nodes from which nid is reachable but that are not reachable from nid
-    (strictly before on every path they share)."""
-    after = cfg.reachable(nid)
-    out = set()
-    for m in cfg.reachable_nodes():
-        if m != nid and nid in cfg.reachable(m) and m not in after:
-            out.add(m)
-    return out
+    """Backup: evaluated abstractly for make_backup x (database is a file / an open connection); the copy must be the first
+    event that can change anything, be taken exactly when both hold, and copy <dbfn> to <dbfn>.bak."""
+    from ..absint import Sym, Opaque, AStr
+    upd_f, del_f = require_func(ctx, "interface.FeatureDB.update"), require_func(ctx, "interface.FeatureDB.delete")
+    cases = [("update", upd_f, lambda: {"data": Sym("data", "str", True)}, dict(dialect={"fmt": "gff3"}, _autoincrements=Opaque("COUNTERS", "dict"))),
+             ("update with further keyword arguments", upd_f, lambda: {"data": Sym("data", "str", True), "merge_strategy": "merge", "checklines": 5},
+              dict(dialect={"fmt": "gff3"}, _autoincrements=Opaque("COUNTERS", "dict"))),
+             ("delete", del_f, lambda: {"features": [Opaque("F", "Feature"), "ID2"]}, {}),
+             ("delete of a single id", del_f, lambda: {"features": "ID1"}, {})]
+    for name, f, mk, attrs in cases:
+        n_w = 0
+        for mb in (True, False):
+            for kind, dbfn in (("file", Sym("dbfn", "str", True)), ("connection", Opaque("conn", "Connection"))):
+                a = mk()
+                a["make_backup"] = mb
+                for t in _traces(ctx, f, a, _self(dbfn, **attrs)):
+                    ev = t.events
+                    copies = [i for i, e in enumerate(ev) if _is_copy(e)]
+                    writes = [i for i, e in enumerate(ev) if _is_write(e)]
+                    n_w += len(writes)
+                    label = "%s(make_backup=%s) on a %s" % (name, mb, kind)
+                    want = 1 if (mb and kind == "file") else 0
+                    ctx.ob("R1", len(copies) == want, "the backup depends on make_backup and on the database being a file, on nothing else", func=f,
+                           sig="%s: %d backup copies" % (label, len(copies)))
+                    for i in copies:
+                        args_ = ev[i][2]
+                        shown = [x.name if isinstance(x, Sym) else x.render() if isinstance(x, AStr) else repr(x) for x in args_]
+                        ok = len(args_) == 2 and shown == ["dbfn", "\u27e6dbfn\u27e7.bak"]
+                        ctx.ob("R1", ok, "the backup copies the database file to <dbfn>.bak", func=f, sig="%s backup copy(%s)" % (name, ", ".join(shown)))
+                        early = [j for j in writes if j < i]
+                        ctx.ob("R1", not early, "the backup is taken before anything can write", func=f,
+                               sig="%s: backup precedes every write" % name if not early else "%s: %d write(s) before the backup" % (name, len(early)))
+        ctx.floor("R1", n_w, 2, "write events in %s" % name)
 
 
 def r2(ctx, eff):
+    """delete(): for a string id, a Feature and a mixed list the statements executed, with their bound values, are exactly one
+    DELETE on features and one on relations per element."""
+    from ..absint import Sym, Opaque
     f = require_func(ctx, "interface.FeatureDB.delete")
-    sites = [s for s in execute_sites(ctx, [f]) if s.stmts and s.stmts[0].verb == "DELETE"]
-    by = {s.stmts[0].table.lower(): s for s in sites}
-    ctx.ob("R2", set(by) == {"features", "relations"} and len(sites) == 2, "delete issues one DELETE on features and one on relations", func=f,
-           sig="delete statements on %s" % sorted(s.stmts[0].table.lower() for s in sites))
-    loop = None
-    idvars = set()
-    for tbl, s in by.items():
-        st = s.stmts[0]
-        w = st.where
-        if tbl == "features":
-            ok = w is not None and w[0] == "cmp" and w[1] == "=" and w[2][0] == "col" and w[2][2].lower() == "id" and w[3][0] == "param"
-            ctx.ob("R2", ok, "the feature row is removed by exact id", node=s.call, func=f, sig="DELETE FROM features WHERE %s" % S.show(w))
-        elif tbl == "relations":
-            cols = set()
-            ok = False
-            if w is not None and w[0] == "or" and len(w[1]) == 2 and all(x[0] == "cmp" and x[1] == "=" for x in w[1]):
-                for x in w[1]:
-                    col = x[2] if x[2][0] == "col" else x[3]
-                    oth = x[3] if x[2][0] == "col" else x[2]
-                    if col[0] == "col" and oth[0] == "param":
-                        cols.add(col[2].lower())
-                ok = cols == {"parent", "child"}
-            elif w is not None and w[0] == "in" and w[1][0] == "param" and isinstance(w[2], list):
-                cols = {x[2].lower() for x in w[2] if x[0] == "col"}
-                ok = cols == {"parent", "child"}
-            ctx.ob("R2", ok, "every relation naming the feature as parent or as child is removed", node=s.call, func=f,
-                   sig="DELETE FROM relations WHERE %s" % S.show(w))
-        p = s.params
-        names = [norm(e) for e in p.elts] if isinstance(p, ast.Tuple) else [norm(p)] if p is not None else []
-        n_ph = len(S.placeholders(st))
-        ok = len(names) == n_ph and len(set(names)) == 1
-        idvars |= set(names)
-        ctx.ob("R2", ok, "the DELETE on %s is bound to the one id being deleted" % tbl, node=s.call, func=f,
-               sig="DELETE %s bound to %s" % (tbl, names))
-        for pp in parents(s.call):
-            if isinstance(pp, ast.For):
-                loop = pp
-                break
-        ctx.ob("R2", loop is not None and is_name(loop.iter, "features"), "the DELETE on %s runs for every element" % tbl, node=s.call, func=f,
-               sig="DELETE %s inside the loop over features" % tbl if loop is not None else "DELETE %s outside the loop" % tbl, nontrivial=False)
-    ctx.ob("R2", len(idvars) == 1, "both statements use the same id", func=f, sig="delete id variables %s" % sorted(idvars), nontrivial=False)
-    # no other DELETE reachable from delete()
-    others = [e for e in eff.transitive(f.qual) if e[1] == "SQL" and e[2] == "DELETE" and e[0] != f.qual]
-    ctx.ob("R2", not others, "delete removes nothing else (no further DELETE in its call closure)", func=f,
-           sig="no other DELETE reachable" if not others else "DELETE on %s reachable via %s" % (others[0][3], others[0][0]))
+    F = lambda: Opaque("F", "Feature")
+    for label, feats, ids in (("a string id", "ID1", ["ID1"]), ("a Feature", F(), ["F.id"]), ("a list of a Feature and an id", [F(), "ID2"], ["F.id", "ID2"])):
+        for t in _traces(ctx, f, {"features": feats, "make_backup": False}, _self(Sym("dbfn", "str", True))):
+            ex = t.executes()
+            per = {}
+            other = []
+            for e in ex:
+                text = e[1] if isinstance(e[1], str) else str(e[1])
+                try:
+                    st = S.parse(text)
+                except S.SQLError:
+                    other.append(" ".join(text.split())[:40])
+                    continue
+                vals = [getattr(x, "name", x) for x in (e[2] if isinstance(e[2], (list, tuple)) else [e[2]])]
+                if isinstance(e[2], dict):
+                    vals = [getattr(x, "name", x) for x in e[2].values()]
+                n_ph = len(S.placeholders(st))
+                if st.verb != "DELETE" or len(set(vals)) != 1 or (not isinstance(e[2], dict) and len(vals) != n_ph):
+                    other.append("%s %s %s" % (st.verb, getattr(st, "table", "?"), vals))
+                    continue
+                per.setdefault(vals[0], []).append(st)
+            ctx.ob("R2", not other, "delete removes nothing else (no further statement)", func=f, sig="delete(%s): other statements %s" % (label, other))
+            ctx.ob("R2", sorted(per, key=str) == sorted(ids, key=str), "the DELETEs are bound to the id of each element (a Feature is replaced by its id)", func=f,
+                   sig="delete(%s): ids deleted %s" % (label, sorted(per, key=str)))
+            for i_, sts in per.items():
+                tabs = sorted(st.table.lower() for st in sts)
+                ctx.ob("R2", tabs == ["features", "relations"], "delete issues one DELETE on features and one on relations per element", func=f,
+                       sig="delete(%s): %s -> %s" % (label, i_, tabs))
+                for st in sts:
+                    w = st.where
+                    if st.table.lower() == "features":
+                        ok = w is not None and w[0] == "cmp" and w[1] in ("=", "==") and {w[2][0], w[3][0]} == {"col", "param"} and (w[2] if w[2][0] == "col" else w[3])[2].lower() == "id"
+                        ctx.ob("R2", ok, "the feature row is removed by exact id", func=f, sig="DELETE FROM features WHERE %s" % S.show(w))
+                    elif st.table.lower() == "relations":
+                        cols = set()
+                        ok = False
+                        if w is not None and w[0] == "or" and len(w[1]) == 2 and all(x[0] == "cmp" and x[1] in ("=", "==") for x in w[1]):
+                            for x in w[1]:
+                                col = x[2] if x[2][0] == "col" else x[3]
+                                oth = x[3] if x[2][0] == "col" else x[2]
+                                if col[0] == "col" and oth[0] == "param":
+                                    cols.add(col[2].lower())
+                            ok = cols == {"parent", "child"}
+                        elif w is not None and w[0] == "in" and w[1][0] == "param" and isinstance(w[2], list):
+                            cols = {x[2].lower() for x in w[2] if x[0] == "col"}
+                            ok = cols == {"parent", "child"}
+                        ctx.ob("R2", ok, "every relation naming the feature as parent or as child is removed", func=f, sig="DELETE FROM relations WHERE %s" % S.show(w))
+            commits = [e for e in t.events if e[0] == "call-opaque" and e[2] == "commit"]
+            ctx.ob("R2", bool(commits) and t.result[0] == "return", "the deletion is committed", func=f, sig="delete(%s): %d commit(s)" % (label, len(commits)), nontrivial=False)
+    others = [e for e in eff.transitive(f.qual) if e[1] == "SQL" and e[2] == "DELETE" and e[0] != f.qual and not e[0].startswith(f.qual)]
+    deep = [e for e in others if e[0] not in {g.qual for g in __import__("gffsa.util", fromlist=["closure"]).closure(ctx, f)}]
+    ctx.ob("R2", not deep, "delete removes nothing else (no further DELETE in its call closure)", func=f,
+           sig="no other DELETE reachable" if not deep else "DELETE on %s reachable via %s" % (deep[0][3], deep[0][0]))
 
 
 def r3_r4(ctx, eff):
+    from ..absint import Sym, Opaque
     f = require_func(ctx, "interface.FeatureDB.update")
-    cfg = cfg_of(f)
-    st = [n for n in ast.walk(f.node) if isinstance(n, ast.Assign) and norm(n.targets[0]) == "kwargs['_autoincrements']"]
-    ok = bool(st) and norm(st[0].value) == "self._autoincrements"
-    ctx.ob("R3", ok, "update hands the live counter object to the importer", func=f,
-           sig="_autoincrements := %s" % (norm(st[0].value) if st else None))
-    ctors = [c for c in calls_in(f.node) if ctx.proj.resolve_call(c, f)[1] in ("create._GFFDBCreator", "create._GTFDBCreator")]
-    ctx.floor("R3", len(ctors), 2, "importer constructions in update")
-    for c in ctors:
-        ok = any(k.arg is None and is_name(k.value, "kwargs") for k in c.keywords)
-        ok2 = bool(st) and cfg.dominates(cfg.node_for(st[0]).id, cfg.node_for(c).id)
-        ctx.ob("R3", ok and ok2, "the importer is constructed with **kwargs after the counters were put in", node=c, func=f,
-               sig="%s(**kwargs) after counters" % norm(c.func) if ok and ok2 else "%s constructed without the live counters" % norm(c.func))
-        for nm, want in (("dbfn", "self.dbfn"), ("dialect", "self.dialect"), ("data", "data")):
-            v = kwarg(c, nm)
-            ctx.ob("R4", v is not None and norm(v) == want, "update imports into the open database with its own dialect (%s)" % nm, node=c, func=f,
-                   sig="%s %s=%s" % (norm(c.func), nm, norm(v) if v is not None else None), nontrivial=False)
+    COUNTERS = Opaque("COUNTERS", "dict")
+    DIALECT = {"fmt": "gff3"}
+    DBFN = Sym("dbfn", "str", True)
+    n_ctor = 0
+    for fmt in ("gff3", "gtf"):
+        DIALECT = {"fmt": fmt}
+        for t in _traces(ctx, f, {"data": Sym("data", "str", True), "make_backup": False}, _self(DBFN, dialect=DIALECT, _autoincrements=COUNTERS)):
+            cons = [e for e in t.events if e[0] == "construct" and e[1] in IMPORTERS]
+            its = [e for e in t.events if e[0] == "construct" and e[1].startswith("iterators.")]
+            calls = [e[2] for e in t.events if e[0] == "call-opaque" and isinstance(e[1], Opaque) and e[1].name in ("_GFFDBCreator", "_GTFDBCreator")]
+            peek_dec = [d for d in t.decisions if "_peek" in repr(d[0])]
+            empty = any(d[1] is False for d in peek_dec) if peek_dec else None
+            if empty:
+                writes = [e for e in t.events if _is_write(e)]
+                ctx.ob("R4", not writes and t.result[0] == "return", "an update whose source yields nothing returns the database unchanged, before anything is written", func=f,
+                       sig="empty update (fmt=%s): %d write event(s)" % (fmt, len(writes)))
+                continue
+            ctx.ob("R4", bool(peek_dec), "an update whose source yields nothing returns the database unchanged (explicit emptiness test before the importer runs)", func=f,
+                   sig="empty update returns self early" if peek_dec else "no early return for an empty update", nontrivial=False)
+            n_ctor += len(cons)
+            for e in cons:
+                kw = e[3]
+                ctx.ob("R3", kw.get("_autoincrements") is COUNTERS, "update hands the live counter object to the importer", func=f,
+                       sig="importer(_autoincrements=%s)" % ("the database's own counters" if kw.get("_autoincrements") is COUNTERS else repr(kw.get("_autoincrements"))))
+                okd = kw.get("dbfn") is DBFN or getattr(kw.get("dbfn"), "name", None) == "dbfn"
+                ctx.ob("R4", okd, "update imports into the open database (dbfn)", func=f, sig="importer(dbfn=%r)" % (kw.get("dbfn"),), nontrivial=False)
+                ctx.ob("R4", kw.get("dialect") == DIALECT, "update imports with the database's own dialect", func=f, sig="importer(dialect=%r)" % (kw.get("dialect"),), nontrivial=False)
+                okdata = isinstance(kw.get("data"), Opaque) and ("Iterator" in kw.get("data").name or "DataIterator" in kw.get("data").name)
+                ctx.ob("R4", okdata, "the importer reads the iterator built from `data`", func=f, sig="importer(data=%r)" % (kw.get("data"),), nontrivial=False)
+            order = [c for c in calls if c in ("_populate_from_lines", "_update_relations", "_finalize")]
+            ctx.ob("R4", order == ["_populate_from_lines", "_update_relations", "_finalize"],
+                   "update = populate, then relations, then finalize (which persists counters, directives, indexes)", func=f,
+                   sig="update driver order populate -> relations -> finalize" if order == ["_populate_from_lines", "_update_relations", "_finalize"] else
+                   "update driver order %s" % order)
+    ctx.floor("R3", n_ctor, 2, "importer constructions in update")
+    # the importer keeps the given counter object itself
     init = require_func(ctx, "create._DBCreator.__init__")
-    asg = [n for n in ast.walk(init.node) if isinstance(n, ast.Assign) and norm(n.targets[0]) == "self._autoincrements"]
-    vals = sorted(norm(n.value) for n in asg)
-    ok = "kwargs['_autoincrements']" in vals and all(v in ("kwargs['_autoincrements']", "collections.defaultdict(int)") for v in vals)
-    ctx.ob("R3", ok, "the importer uses the given counter object itself (no copy), or fresh counters when none is given", func=init,
-           sig="importer counters := %s" % vals)
+    GIVEN = Opaque("GIVEN", "dict")
+    for label, extra in (("counters given", {"_autoincrements": GIVEN}), ("no counters given", {})):
+        a = {"data": Sym("data", "any", True), "dbfn": Sym("dbfn", "str", True)}
+        a.update(extra)
+        so = Opaque("self", "obj")
+        for t in _traces(ctx, init, a, so, summaries={"iterators.DataIterator": lambda i, pos, kw, node: Opaque("ITER", "obj")}):
+            sets_ = [e[3] for e in t.events if e[0] == "setattr" and e[2] == "_autoincrements" and getattr(e[1], "name", None) == "self"]
+            final = sets_[-1] if sets_ else None
+            if extra:
+                same = isinstance(final, Opaque) and final.name == "GIVEN"
+                ctx.ob("R3", same, "the importer uses the given counter object itself (no copy)", func=init,
+                       sig="%s: self._autoincrements is %s" % (label, "the given object" if same else repr(final)))
+            else:
+                import collections as _c
+                ok = final is not None and not (isinstance(final, Opaque) and final.name == "GIVEN") and (isinstance(final, _c.defaultdict) or "defaultdict" in repr(final))
+                ctx.ob("R3", ok, "...or fresh counters when none is given", func=init, sig="%s: self._autoincrements := %r" % (label, final), nontrivial=False)
     fin = require_func(ctx, "create._DBCreator._finalize")
-    sites = [s for s in execute_sites(ctx, [fin]) if s.stmts and s.stmts[0].verb == "INSERT" and s.stmts[0].table.lower() == "autoincrements"]
+    from ..util import closure
+    from ..flow import Flow, show
+    pool = closure(ctx, fin)
+    fl = Flow(ctx, pool, rows=False)
+    sites = [s for s in execute_sites(ctx, pool) if s.stmts and s.stmts[0].verb == "INSERT" and s.stmts[0].table.lower() == "autoincrements"]
     ctx.floor("R3", len(sites), 1, "counter write-back statements")
     for s in sites:
-        ok = s.stmts[0].or_clause == "replace" and s.method == "executemany" and s.params is not None and "self._autoincrements.items()" in norm(s.params)
-        ctx.ob("R3", ok, "every counter is written back with INSERT OR REPLACE", node=s.call, func=fin,
-               sig="counter write-back: INSERT%s, %s" % (" OR " + s.stmts[0].or_clause.upper() if s.stmts[0].or_clause else "", norm(s.params) if s.params is not None else None))
+        pt = fl.terms(s.params, s.func) if s.params is not None else set()
+        src = {("call", "items", ("attr", ("self",), "_autoincrements"), ())}
+        okp = bool(pt) and (pt == src or all(t[0] == "op" and t[1] == "listcomp" for t in pt) or all(show(t).startswith("self._autoincrements.items") for t in pt))
+        ok = s.stmts[0].or_clause == "replace" and s.method == "executemany" and okp
+        ctx.ob("R3", ok, "every counter is written back with INSERT OR REPLACE", node=s.call, func=s.func,
+               sig="counter write-back: INSERT%s, %s" % (" OR " + s.stmts[0].or_clause.upper() if s.stmts[0].or_clause else "", ", ".join(sorted(show(t) for t in pt))))
     dbi = require_func(ctx, "interface.FeatureDB.__init__")
-    sel = [s for s in execute_sites(ctx, [dbi]) if s.stmts and s.stmts[0].verb == "SELECT" and s.stmts[0].tables() == ["autoincrements"]]
+    pool = closure(ctx, dbi)
+    sel = [s for s in execute_sites(ctx, pool) if s.stmts and s.stmts[0].verb == "SELECT" and s.stmts[0].tables() == ["autoincrements"]]
     ctx.floor("R3", len(sel), 1, "counter read-back statements")
     cols = [e[2].lower() for e, _ in sel[0].stmts[0].cols if e[0] == "col"]
-    asg = [n for n in ast.walk(dbi.node) if isinstance(n, ast.Assign) and norm(n.targets[0]) == "self._autoincrements"]
-    ok = cols == ["base", "n"] and bool(asg) and norm(asg[0].value) in ("collections.defaultdict(int, c)", "collections.defaultdict(int, dict(c))")
-    ctx.ob("R3", ok, "opening a database reloads the counters (base -> n)", func=dbi,
-           sig="counters reloaded from %s as %s" % (cols, norm(asg[0].value) if asg else None))
-    # ---- R4 driver order
-    pop = [c for c in calls_in(f.node) if call_attr(c) == "_populate_from_lines"]
-    upd = [c for c in calls_in(f.node) if call_attr(c) == "_update_relations"]
-    fin_c = [c for c in calls_in(f.node) if call_attr(c) == "_finalize"]
-    ctx.require(pop and upd, "update no longer calls populate/update_relations")
-    ok = bool(fin_c) and cfg.postdominates(cfg.node_for(fin_c[0]).id, cfg.node_for(pop[0]).id) and \
-        cfg.dominates(cfg.node_for(upd[0]).id, cfg.node_for(fin_c[0]).id) and cfg.dominates(cfg.node_for(pop[0]).id, cfg.node_for(upd[0]).id)
-    ctx.ob("R4", ok, "update = populate, then relations, then finalize (which persists counters, directives, indexes)", func=f,
-           sig="update driver order populate -> relations -> finalize" if ok else "update driver order broken or _finalize skipped")
-    # early return path: nothing but the backup and the construction of the data source
-    early = [n for n in ast.walk(f.node) if isinstance(n, ast.Return) and n is not f.node.body[-1]]
-    empties = [r for r in early if any("_peek" in norm(t) for t, pol in guards_of(r, f.node)) and norm(r.value) == "self"]
-    ctx.ob("R4", bool(empties), "an update whose source yields nothing returns the database unchanged (explicit emptiness test before the importer runs)", func=f,
-           sig="empty update returns self early" if empties else "no early return for an empty update")
-    ws = write_nodes(ctx, f, eff)
-    for r in early:
-        rn = cfg.node_for(r)
-        bad = [c for c, why in ws if rn.id in cfg.reachable(cfg.node_for(c).id)]
-        g = [norm(t) for t, pol in guards_of(r, f.node)]
-        ctx.ob("R4", not bad, "an update without features returns before anything is written", node=r, func=f,
-               sig="empty update (%s): no write before the return" % g if not bad else "empty update: %s executed before the early return" % _callee(bad[0]))
+    fl2 = Flow(ctx, pool)
+    asg = [(g, n) for g in pool for n in ast.walk(g.node) if isinstance(n, ast.Assign) and any(isinstance(t, ast.Attribute) and t.attr == "_autoincrements" for t in n.targets)]
+    ok = cols == ["base", "n"] and bool(asg)
+    shown = None
+    for g, n in asg:
+        ts = fl2.terms(n.value, g)
+        shown = ", ".join(sorted(show(t) for t in ts))
+        ok = ok and any("defaultdict" in show(t) for t in ts)
+    ctx.ob("R3", ok, "opening a database reloads the counters (base -> n)", func=dbi, sig="counters reloaded from %s as %s" % (cols, shown))
 
 
 def r6(ctx, sch):
+    from ..absint import Sym, Opaque
     f = require_func(ctx, "interface.FeatureDB.add_relation")
-    cfg = cfg_of(f)
-    sites = [s for s in execute_sites(ctx, [f]) if s.stmts and s.stmts[0].verb == "INSERT" and s.stmts[0].table.lower() == "relations"]
-    ctx.floor("R6", len(sites), 1, "relation inserts in add_relation")
-    s = sites[0]
-    cols = [c.lower() for c in (s.stmts[0].columns or sch["relations"]["columns"])]
-    p = s.params
-    vals = [norm(e) for e in p.elts] if isinstance(p, ast.Tuple) else []
-    want = {"parent": "parent.id", "child": "child.id", "level": "level"}
-    ok = len(vals) == len(cols) == 3 and all(want.get(c) == v for c, v in zip(cols, vals))
-    ctx.ob("R6", ok, "add_relation inserts exactly (parent id, child id, level)", node=s.call, func=f,
-           sig="add_relation row %s -> %s" % (vals, cols))
-    for nm in ("parent", "child"):
-        norms = [n for n in ast.walk(f.node) if isinstance(n, ast.If) and norm(n.test) == "isinstance(%s, str)" % nm
-                 and any(isinstance(b, ast.Assign) and is_name(b.targets[0], nm) and norm(b.value) == "self[%s]" % nm for b in n.body)]
-        ok = bool(norms) and cfg.dominates(cfg.node_for(norms[0]).id, cfg.node_for(s.call).id)
-        ctx.ob("R6", ok, "an id given for `%s` is resolved to the stored feature before the row is written" % nm, func=f,
-               sig="%s normalised before the insert" % nm if ok else "%s not normalised before the insert" % nm, nontrivial=False)
+    P, C = Opaque("P", "Feature"), Opaque("C", "Feature")
+    n = 0
+    for label, parent, child, want in (("Feature arguments", P, C, ["P.id", "C.id", "level"]), ("id arguments", "pid", "cid", None)):
+        summ = {"interface.FeatureDB.__getitem__": lambda i, pos, kw, node: Opaque("stored(%s)" % pos[0], "Feature")}
+        for t in _traces(ctx, f, {"parent": parent, "child": child, "level": Sym("level", "int", True)}, _self(Sym("dbfn", "str", True)), summaries=summ):
+            ins = []
+            for e in t.executes():
+                try:
+                    st = S.parse(e[1] if isinstance(e[1], str) else str(e[1]))
+                except S.SQLError:
+                    continue
+                if st.verb == "INSERT" and st.table.lower() == "relations":
+                    cols = [c.lower() for c in (st.columns or sch["relations"]["columns"])]
+                    vals = [getattr(x, "name", x) for x in e[2]] if isinstance(e[2], (list, tuple)) else []
+                    ins.append(dict(zip(cols, vals)))
+            n += len(ins)
+            exp = {"parent": "P.id", "child": "C.id", "level": "level"} if want else {"parent": "stored(pid).id", "child": "stored(cid).id", "level": "level"}
+            ctx.ob("R6", ins == [exp], "add_relation inserts exactly (parent id, child id, level)%s" % ("" if want else "; an id is resolved to the stored feature first"), func=f,
+                   sig="add_relation(%s) row %s" % (label, ins))
+    ctx.floor("R6", n, 1, "relation inserts in add_relation")
 
 
 def check(ctx):
